@@ -1,6 +1,7 @@
 """C10 — message queue is a bounded FIFO of fixed buffers for every geometry (tie D; kernel-only refinement proof)."""
-import glob, json, os
+import glob, json, os, sys
 import vlib
+sys.path.insert(0, os.path.dirname(os.path.abspath(__file__)))
 
 META = {
     'engine': 'lean-D',
@@ -292,11 +293,16 @@ def corpus():
 
 def run(ctx):
     rng = vlib.Rng(ctx.seed)
-    ctx.prove(['Librfn.Props.C10'], REQUIRED)
+    import tie_common
+    tie_common.prove(ctx, ['MessageqSeq'], ['Librfn.Props.C10'], REQUIRED, 'Librfn.Props.C10Tie', 'Librfn.C10.Tie')
     exe = harness(ctx)
     quick = ctx.tier == 'quick'
     hs = corpus()
     ncorpus = len(hs)
+    for hint in tie_common.sat_hints(ctx):       # a broken bit-vector obligation names a structure state: try the geometries it suggests
+        for d in {32, max(1, min(32, hint.get('ql', 32))), max(1, min(32, hint.get('sp', 31) + 1)), max(1, min(32, hint.get('rp', 31) + 1))}:
+            for m in {hint.get('ml', 4096) or 1, 4096, 65535}:
+                hs.append(gen_saturated(rng, d, m, 0, 3 * d + 8))
     for (d, m, k) in geometries(rng, 76 if quick else 8000):
         nops = rng.choice([12, 40, 40, 6 * d + 20, 8 * d + 40])
         hs.append(gen_history(rng, d, m, k, nops, probe_every=rng.chance(1, 2)))
